@@ -168,6 +168,7 @@ CONSTANT LayerTab <- LayerTabDef
 CONSTANT SrcTab <- SrcTabDef
 CONSTANT Opts <- OptsDef
 CONSTANT Caps <- CapsDef
+CONSTANT Bug <- BugDef
 """
 
 
